@@ -26,6 +26,26 @@ CHECKS = {
          "Rows within 1 s of now are skipped (boundary ambiguous at one-second granularity).", "3/C20"),
 }
 
+ "C12": ("CODEC", "round-trip + differential against independent RFC 2131/3396 and Ethernet/IPv4/UDP decoders over generated messages and frames; exhaustive sweep of the 65536 flag values", "exploration",
+         "Generated DHCP messages survive parse/serialise/parse and read identically through an independent RFC decoder; generated frames verify (lengths, both checksums, payload); broadcast(f) <=> bit 15 for all 65536 flag values (exhaustive sub-claim).",
+         "Trusted: the harness's RFC 2131/3396 codec and frame decoder (written from the RFCs). On-the-wire destination choice is decided by the wire tier when enabled.", "3/C12"),
+ "C14": ("CODEC", "round-trip property testing over generated structured DNS messages and mutated encodings, differential against an independent RFC 1035/6891 decoder with pointer audit", "exploration",
+         "Every generated message (to 2000 records / 65535 octets, shared suffixes at every depth, all rdata kinds, EDNS options) re-decodes to itself with the crate parser and field-by-field (RFC bit positions) with an independent decoder; every compression pointer targets an earlier offset below 0x4000; accepted byte inputs re-encode to an equal message.",
+         "Trusted: the harness's RFC 1035 decoder/encoder. Inputs whose RDLENGTH disagrees with name-bearing rdata are skipped (counted).", "3/C14"),
+ "C04": ("CODEC", "property testing of size-limited serialisation with an independent decoder as validity predicate; limits placed at every record boundary +-2", "exploration",
+         "For generated messages and limits: output <= limit, identical to the full encoding when that fits, otherwise TC set and a proper whole-record prefix that an independent decoder accepts with matching counts.",
+         "Function tier decides the serialiser; the per-transport choice (UDP vs TCP) is glue inside the service loops and is decided by the wire tier when enabled.", "3/C04"),
+ "C05": ("CODEC+FUZZ", "complete enumeration of a structure-aware boundary/truncation family + generated mutations + corpus through every decoder and the handler steps that follow it; crash/overflow/hang oracle with write-ahead replay", "exploration",
+         "No input of the enumerated single-position family over the seed packets, of the nested-length families, of the committed corpus or of the generated multi-edit mutations made any decoder or subsequent handler step panic, overflow or exceed 30 s CPU (build has overflow checks and debug assertions on).",
+         "Handler steps replicated with public API calls in the order the service uses them; private glue (to_array, service loops) is reached only by the wire tier. Frames below 14 octets are not deliverable to LLDP.", "3/C05"),
+ "C06": ("CODEC(hook)", "model-based property testing of the cache through its own entry points under a paused clock against a reference cache model", "exploration",
+         "Generated query/advance/sweep sequences with near-miss keys and boundary-placed clocks: a hit only for the identical key within the smallest TTL, TTLs equal original minus whole elapsed seconds, never negative; cached content equals what was stored.",
+         "H3 drives calculate_expiry/insert/get_entry/expire in handle_query order; the class bypass and header-bit extraction of the key live in handle_query/parser and are decided by C14 and the wire tier.", "3/C06"),
+ "C16": ("CODEC(hook)", "property testing of the token bucket on a harness clock with black-box inferred constants; window-bound invariant + idle liveness", "exploration",
+         "With burst and rate inferred black-box, every window of every generated arrival sequence stays within B + R*span and an idle bucket grants any request up to B.",
+         "Decides the single bucket only; the two-bucket limiter, the reply pricing and the cookie exemption are private glue decided by the wire tier when enabled.", "3/C16"),
+}
+
 NOT_YET = {
 }
 
@@ -61,6 +81,7 @@ def main():
             "add_only": True,
         },
         "engines": [
+            {"name": "CODEC", "path": "harness/src/props_codec.rs", "serves_properties": ["C04", "C05", "C06", "C12", "C14", "C16"], "kind_free_text": "independent RFC codecs + proptest strategies for messages, frames, byte mutations; enumerated mutation families"},
             {"name": "HIST", "path": "harness/src/hist.rs", "serves_properties": ["C01", "C09", "C10", "C13", "C18", "C20"], "kind_free_text": "model-based DHCP history interpreter over the real handle_pkt + Pool (proptest)"},
         ],
         "checks": checks,
